@@ -102,6 +102,8 @@ impl S3 for FileSystem {
         if src_metadata_path.exists() {
             let dst_metadata_path = self.get_metadata_path(&input.bucket, &input.key, None)?;
             let _ = try_!(fs::copy(src_metadata_path, dst_metadata_path).await);
+        } else {
+            self.clear_metadata(&input.bucket, &input.key)?;
         }
 
         let md5_sum = self.get_md5_sum(bucket, key).await?;
@@ -508,8 +510,10 @@ impl S3 for FileSystem {
 
         debug!(path = %object_path.display(), ?size, %md5_sum, ?checksum, "write file");
 
-        if let Some(ref metadata) = metadata {
-            self.save_metadata(&bucket, &key, metadata, None).await?;
+        match metadata {
+            Some(ref metadata) => self.save_metadata(&bucket, &key, metadata, None).await?,
+            // the previous object's metadata must not outlive it
+            None => self.clear_metadata(&bucket, &key)?,
         }
 
         let mut info: InternalInfo = default();
@@ -732,11 +736,6 @@ impl S3 for FileSystem {
 
         self.delete_upload_id(&upload_id).await?;
 
-        if let Ok(Some(metadata)) = self.load_metadata(&bucket, &key, Some(upload_id)).await {
-            self.save_metadata(&bucket, &key, &metadata, None).await?;
-            let _ = self.delete_metadata(&bucket, &key, Some(upload_id));
-        }
-
         let object_path = self.get_object_path(&bucket, &key)?;
         let mut file_writer = self.prepare_file_write(&object_path).await?;
 
@@ -769,6 +768,14 @@ impl S3 for FileSystem {
             try_!(fs::remove_file(&part_path).await);
         }
         file_writer.done().await?;
+
+        // the object now exists: its metadata is the upload's
+        if let Ok(Some(metadata)) = self.load_metadata(&bucket, &key, Some(upload_id)).await {
+            self.save_metadata(&bucket, &key, &metadata, None).await?;
+            let _ = self.delete_metadata(&bucket, &key, Some(upload_id));
+        } else {
+            self.clear_metadata(&bucket, &key)?;
+        }
 
         let file_size = try_!(fs::metadata(&object_path).await).len();
         let md5_sum = self.get_md5_sum(&bucket, &key).await?;
